@@ -1,11 +1,19 @@
 """C10 — documented-concurrent API is safe from any goroutine (partial): lock-set discipline over a generated
-access inventory + stress under the race detector."""
+access inventory, the actor-tree machine (registry <-> children <-> parent for all interleavings), the panic-site
+discipline, forced window schedules on the real code + stress under the race detector."""
+
+import os as _os
+
+# the copy of internal/actor/context.go with a hook call in front of every lock acquisition, regenerated from the tree under test by
+# bin/gen_access (pregen) before every check: build/gen/race/context.go (an absolute path: the framework joins it to harness/)
+_HOOKED = _os.path.join(_os.path.dirname(_os.path.dirname(_os.path.dirname(_os.path.abspath(__file__)))), "build", "gen", "race", "context.go")
 
 COMPONENTS = {
     "race": {
         "coq_run_module": "Race.LocksetRun",
         "accessors": {"internal/actor/xv_race_verif.go": "acc/actor/xv_race_verif.go",
-                      "internal/mailbox/xv_race_verif.go": "acc/mailbox/xv_race_verif.go"},
+                      "internal/mailbox/xv_race_verif.go": "acc/mailbox/xv_race_verif.go",
+                      "internal/actor/context.go": _HOOKED},
         "race": True,
         "monitors_only": True,
         "timeout": {"quick": 420, "thorough": 1500},
@@ -18,7 +26,16 @@ COMPONENTS = {
                  "goroutines), EventStream.Subscribe / Publish / Unsubscribe / UnsubscribeAll, Ref.Clone / String / Equals on shared refs, while the actors "
                  "spawn children, stash, watch, schedule, panic (all six supervision decisions, failing restart hooks -> zombies), kill children and "
                  "themselves; then quiescence, tree check, System.Stop, tree check. Monitors: data-race (one per distinct pair of sites), fatal, panic, hang, "
-                 "tree, table-stale. Plus one model case: the access inventory regenerated in-process, its discipline verdict recomputed by Race/LocksetRun.v"),
+                 "tree, table-stale. Model cases: the access inventory and the panic-site inventory regenerated in-process, their discipline verdicts recomputed by "
+                 "Race/LocksetRun.v; (c) first of all, < 1 s: eight FORCED SCHEDULES of the actor-tree machine (coq/Race/Tree.v) on fresh real systems - the spawner "
+                 "parked at the childrenLock acquisition in front of the insertion into the root's child table / inside OnPrelaunch, the root parked in front of "
+                 "removeChild (hooks generated into a copy of the CURRENT context.go by accessgen -hooks, overlay) - spawn, spawn-kill-respawn, duplicate name, late "
+                 "notice after name re-use, kill inside the registered-not-inserted window (notice handled before / after the insertion), kill at the registration "
+                 "re-check inside the insertion's critical section (child dead / child parked in `killing`), a RESTART in progress inside the window (state word "
+                 "killed, still registered), root dying inside the checked-not-registered window (System.Stop / Kill(root)); each emits (schedule in machine labels, observed registry / child table by object "
+                 "identity / state words) as a case which run_race replays on the machine; monitors tree-stale-root-child (regression of /repo b0e210b), "
+                 "tree-orphan-under-dead-root (regression of /repo 6438ab6), tree; (d) every quiescent snapshot of (a) and (b) (<= 1200 nodes) is also a "
+                 "case for the model's consistency check (Race/Tree.v snap_violations)"),
     },
 }
 
@@ -28,14 +45,29 @@ PROPERTIES = {
         "pregen": ["bin/gen_access"],
         # `stop-failed` (System.Stop returned an error because some actor never terminated) is not a statement of C10
         # (C06 / C07 / C09 are about termination); it is reported in the evidence info but does not decide this property
-        "monitor_filter": r"^(data-race|harness-race|fatal|panic|hang|tree|table-stale|inventory|child-died)$",
-        "rule": ("obligations: the lock-set discipline evaluated by vm_compute on coq/Generated/AccessTable.v, regenerated before the Coq step from the tree "
+        "monitor_filter": r"^(data-race|harness-race|fatal|panic|hang|tree|tree-stale-root-child|tree-orphan-under-dead-root|table-stale|inventory|child-died)$",
+        "rule": ("obligations: (1) the lock-set discipline and (3) the panic-site discipline evaluated by vm_compute on coq/Generated/AccessTable.v (access_table, "
+                 "panic_table); (2) the tree theorems are by induction over all schedules of the actor-tree machine (no bound). Cases: one per forced schedule (non-trivial), one "
+                 "per quiescent snapshot (non-trivial = at least one registered actor), the two inventories. Details of (1): regenerated before the Coq step from the tree "
                  "under test (every read/write site of the 22 shared location classes of DESIGN 4-C10 with function, R/W, atomic?, locks lexically held, "
                  "owner role, publication phase); the bound is the table. Search: a seeded stress of the real system under -race; the seed fixes the "
                  "callers' operation streams and the actors' choices, the interleaving is the Go scheduler's (not replayable exactly: a replay re-runs the same "
                  "seed and tier). One model case per run (the inventory and the Go-side discipline verdict, recomputed by the extracted model and by vm_compute); "
                  "non-trivial = the inventory is non-empty"),
         "modelled_not_verified": [
+            "TREE machine (Race/Tree.v): hand-written model of the code paths that write System.actorContexts / Context.children / Context.state (mapping step <-> code in the "
+            "file header); one sync.Map operation / one childrenLock critical section / one atomic operation = one step (granularity = what the access inventory reports for these "
+            "fields); user code, supervision decisions, mailbox contents and the order of notices are nondeterministic (a superset of the code's behaviours: sound for the invariants; "
+            "no refutation rests on it); the root is never restarted (it has no supervisor; LResurrect / LZombie need a parent); C01 (one handler at a time per actor) is assumed as in the lock-set machine; a handler "
+            "that calls System.ActorOf is modelled as an external thread; the history variable t_pub (registered at some time) guards an actor's own steps",
+            "the tie of the tree machine is by FINAL TABLES of eleven forced schedules and by the consistency verdict of quiescent snapshots, not a lock-step of every micro-step "
+            "(only the lock acquisitions and the synchronised reads in if-statements of context.go carry hooks); the hooks are one atomic load each and are armed only inside the forced-schedule scenarios",
+            "PANIC sites: the guards (lock in the must-hold set in the matching mode; map established non-nil on every path; close in the claimed phase of a once-event) are the "
+            "translator's lexical must-analysis (same limits as the lock tracking); not classified: nil dereferences, unchecked type assertions (Ask with a nil / foreign ActorRef "
+            "panics on the caller), slice indexing, user panics (C08), internal/guard's close(guardClosedSignal) (C06: own OnKilled at most once)",
+            "inner maps of map-of-maps fields carry a publication discipline (event 2): sites on a fresh local before `B.f[k] = m` are after-claim, sites reached through the container "
+            "are after-fire (the reference was obtained after the store: data dependence); aliases passed to in-package callees are followed with the caller's lock set, library "
+            "callees are assumed to read their argument except maps.Copy / DeleteFunc / Insert / clear (first argument written)",
             "PARTIAL: the theorems are about the inventory and the discipline, not about the Go memory model; that a site's annotations (locks held, owner role, "
             "publication phase) are true at run time is the translator's claim. 'No crash' and 'tree not corrupted' are searched for by the stress harness, not proved",
             "owner role = the goroutine currently processing the actor's mailbox; at most one per actor at a time is property C01 (C01_single_consumer), assumed "
@@ -48,7 +80,8 @@ PROPERTIES = {
             "obtained by `x := B.f` or from a method whose return statement is `return R.f`) - these can hide a race from the table",
             "container aliases: an access through a local alias of a tracked map gets credit for a lock of the same base only while it is the SAME acquisition under which the "
             "alias was read from the field (a table captured in one critical section and used in a later one may be detached from the field: time-of-check/time-of-use); "
-            "this is conservative - it also flags a stale alias of a field that is in fact never re-assigned; aliases passed to callees / stored in structs are not followed",
+            "this is conservative - it also flags a stale alias of a field that is in fact never re-assigned; aliases stored in structs / returned to callers other than through a "
+            "`return R.f` helper are not followed (aliases passed to in-package callees ARE followed)",
             "accesses through reflection, unsafe, third-party code, or packages other than internal/actor, internal/future, internal/remoting are not inventoried; "
             "composite-literal initialisers (construction before sharing) are not accesses",
             "the once-published discipline (Future.err / message: written by the winner of closed.CompareAndSwap(false,true) before close(done), read by others after <-done) "
@@ -71,11 +104,25 @@ META = {
                  "registry/children/parent consistency at quiescence and after Stop; plus rounds aimed at the root's child table (all top-level children of the root "
                  "terminate while System.ActorOf calls with slow OnPrelaunch are in flight; tree monitor after every round; Stop stops everything). The inventory follows local aliases "
                  "of a tracked map (also through a `return R.f` helper): a lock counts for such an access only within the critical section in which the alias was read "
-                 "(a table captured earlier and written under a later acquisition is reported as unprotected: detached-table TOCTOU)."),
+                 "(a table captured earlier and written under a later acquisition is reported as unprotected: detached-table TOCTOU). "
+                 "TREE (C10_tree_*): an abstract machine of the three tables that are the actor tree (registry, child tables, state words) with one step per sync.Map operation / "
+                 "childrenLock critical section / atomic operation of Context.ActorOf, System.ActorOf (actorOfLock, caller's goroutine), onKill / onRestart, checkAndMarkKilled, "
+                 "handleRestart (resurrect / zombie), the zombie release, cleanupIfNotRestarting (registry delete, notice to the parent), handleChildDeath (removeChild by reference "
+                 "identity) and the dead-letter gate - any number of actors, threads, re-used names, every schedule. Proved by an inductive invariant of 20 clauses: below every parent that is not dead - the root included - "
+                 "the tree is never corrupted (in-flight form in every reachable state; at quiescence registry <-> children <-> parent agree exactly: the root's table never keeps a "
+                 "dead context); below every non-root parent additionally no registered actor has a dead parent; for every parent: registry soundness, actorOfLock serialises root "
+                 "spawns, nobody deletes another context's registration. Two root defects found with the machine are repaired in /repo and kept as regression schedules: the stale "
+                 "root entry (b0e210b: the insertion re-checks the REGISTRATION inside its critical section - a candidate testing the state word was rejected by the forced schedule "
+                 "restart-in-progress; C10_tree_former_stale_child_schedule_repaired) and the orphan under a dead root (6438ab6). Not proved: that an actor registered under an "
+                 "already dead root disappears again (liveness), and a dead root's table may keep such a late child's entry. "
+                 "PANIC SITES (C10_panic_*): 38 sites (unlock of an unlocked mutex, close of a closed channel, nil-map write) inventoried with their guards; the discipline is evaluated on "
+                 "the generated table; generic theorem: a channel closed only as the fire of one once-event is never closed twice nor sent on afterwards."),
         "design_ref": "DESIGN.md section 4 C10, section 2.4.5",
-        "note": ("Trusted: Coq kernel + vm_compute; the translator (lexical lock tracking, role list) and its documented blind spots; the Go race detector (search only); "
+        "note": ("Trusted: Coq kernel + vm_compute; the translator (lexical lock tracking, role list, non-nil must-analysis, hook placement) and its documented blind spots; the hand-written tree "
+                 "machine (tied by forced schedules and snapshots); the Go race detector (search only); "
                  "C01_single_consumer as an assumption. Found and fixed while building: data race on Future.timer between NewFuture and the timeout goroutine "
                  "(commit 330d607; caught by both the discipline and -race)."),
-        "technique": "Coq proof (inductive invariant of an abstract access machine; generic lock-set soundness) + generated finite instance checked by vm_compute + stress under the Go race detector",
+        "technique": ("Coq proof (inductive invariants of three abstract machines: access machine / lock-set soundness, actor-tree machine over all interleavings, channel machine) + generated finite "
+                      "instances checked by vm_compute + forced window schedules replayed on the model + stress under the Go race detector"),
     },
 }
